@@ -1,6 +1,8 @@
 package main
 
 import (
+	"crypto/aes"
+	"crypto/cipher"
 	"fmt"
 	"go/ast"
 	"go/parser"
@@ -153,7 +155,7 @@ func bytesOf(s string) []uint64 {
 func init() {
 	factGens = append(factGens, func(repo string) (*factFile, error) {
 		f := newFactFile("Wallet")
-		seedMod, ad, aes, argon, ver, maxSearch := wallet.ConstsVerif()
+		seedMod, ad, aesName, argon, ver, maxSearch := wallet.ConstsVerif()
 		_ = ad
 		f.raw("-- wallet/derivation.go\n")
 		f.nat("FirstHardenedIndex", uint64(wallet.FirstHardenedIndex))
@@ -214,6 +216,16 @@ func init() {
 			return nil, err
 		}
 		f.nat("nonceLen", nl)
+		// nonce size of the AEAD the code constructs: cipher.NewGCM(aes.NewCipher(32-byte key))
+		blk, err := aes.NewCipher(make([]byte, 32))
+		if err != nil {
+			return nil, err
+		}
+		gcm, err := cipher.NewGCM(blk)
+		if err != nil {
+			return nil, err
+		}
+		f.nat("gcmNonceSize", uint64(gcm.NonceSize()))
 		pw, err := parseSrc(repo, "wallet/password.go")
 		if err != nil {
 			return nil, err
@@ -242,7 +254,7 @@ func init() {
 			return nil, err
 		}
 		f.nat("saltLen", sl)
-		f.natList("aesMode", bytesOf(aes))
+		f.natList("aesMode", bytesOf(aesName))
 		f.natList("argonName", bytesOf(argon))
 		f.nat("cryptoStoreVersion", ver)
 		f.nat("maxSearchIndex", maxSearch)
